@@ -227,6 +227,10 @@ func (g *G) genFaults() []Fault {
 		case 3:
 			f.Kind = "trunc"
 			f.Bytes = strconv.Itoa(g.r.Intn(120))
+			if g.chance(0.5) {
+				// cut the END of the stored bytes (the body, its last chunk, the chunked terminator)
+				f.Bytes = pick(g, "-1", "-2", "-3", "-5", "-7", "-12", "-20")
+			}
 		default:
 			f.Kind = "flip"
 			f.Bytes = strconv.Itoa(g.r.Intn(200))
@@ -310,19 +314,30 @@ func (g *G) classes() []genClass {
 			if g.chance(0.5) {
 				h.Ops[i].Faults = g.genFaults()
 			}
+			// stored entries of every framing: a chunked reply is stored without Content-Length
+			for k := range h.Ops[i].Replies {
+				if g.chance(0.3) {
+					h.Ops[i].Replies[k].Chunked = true
+				}
+			}
 		}
 		return h
 	}
 	chain := func(g *G, id string) *History { return g.genChain(id) }
+	sie := func(g *G, id string) *History { return g.genSIE(id) }
 	switch g.prop {
-	case "C01", "C11":
+	case "C01":
 		return []genClass{{6, grid}, {3, chain}, {1, status}, {1, vary}}
-	case "C02", "C13", "C18":
-		return []genClass{{8, grid}, {1, chain}, {1, status}, {1, vary}}
+	case "C11":
+		return []genClass{{5, grid}, {3, chain}, {2, sie}, {1, status}, {1, vary}}
+	case "C13":
+		return []genClass{{5, grid}, {4, sie}, {1, chain}, {1, status}}
+	case "C02", "C18":
+		return []genClass{{7, grid}, {1, chain}, {1, sie}, {1, status}, {1, vary}}
 	case "C06":
 		return []genClass{{4, grid}, {4, status}, {1, faults}, {1, inval}}
 	case "C10":
-		return []genClass{{3, grid}, {4, gridFault}, {3, faults}}
+		return []genClass{{3, grid}, {4, gridFault}, {3, faults}, {1, sie}}
 	case "C03":
 		return []genClass{{8, urls}, {2, inval}}
 	case "C04":
